@@ -183,6 +183,179 @@ impl<'de> Deserialize<'de> for K {
     }
 }
 
+/// C14, key kinds: the same document read with four map-key types — a newtype over `String`, `Spanned` of that newtype,
+/// a newtype over `Spanned<String>`, and `Spanned<String>`. Wrapping in `Spanned` must not change success or the keys,
+/// and the three spanned kinds must deliver the same ranges.
+trait KeyKind: for<'de> Deserialize<'de> {
+    fn parts(&self) -> (String, Option<(usize, usize)>);
+}
+#[derive(serde::Deserialize)]
+struct KP(String);
+#[derive(serde::Deserialize)]
+struct KPS(Spanned<String>);
+impl KeyKind for KP {
+    fn parts(&self) -> (String, Option<(usize, usize)>) {
+        (self.0.clone(), None)
+    }
+}
+impl KeyKind for Spanned<KP> {
+    fn parts(&self) -> (String, Option<(usize, usize)>) {
+        (self.get_ref().0.clone(), Some((self.span().start, self.span().end)))
+    }
+}
+impl KeyKind for KPS {
+    fn parts(&self) -> (String, Option<(usize, usize)>) {
+        (self.0.get_ref().clone(), Some((self.0.span().start, self.0.span().end)))
+    }
+}
+impl KeyKind for Spanned<String> {
+    fn parts(&self) -> (String, Option<(usize, usize)>) {
+        (self.get_ref().clone(), Some((self.span().start, self.span().end)))
+    }
+}
+enum KTree<Q> {
+    Leaf,
+    Seq(Vec<KTree<Q>>),
+    Map(Vec<(Q, KTree<Q>)>),
+}
+struct KTreeVisitor<Q> {
+    root: bool,
+    m: std::marker::PhantomData<Q>,
+}
+struct KTreeSeed<Q>(std::marker::PhantomData<Q>);
+impl<'de, Q: KeyKind> serde::de::DeserializeSeed<'de> for KTreeSeed<Q> {
+    type Value = KTree<Q>;
+    fn deserialize<D: Deserializer<'de>>(self, d: D) -> Result<KTree<Q>, D::Error> {
+        d.deserialize_any(KTreeVisitor::<Q> { root: false, m: Default::default() })
+    }
+}
+impl<'de, Q: KeyKind> Visitor<'de> for KTreeVisitor<Q> {
+    type Value = KTree<Q>;
+    fn expecting(&self, f: &mut std::fmt::Formatter<'_>) -> std::fmt::Result {
+        write!(f, "any TOML value")
+    }
+    fn visit_bool<E>(self, _: bool) -> Result<KTree<Q>, E> {
+        Ok(KTree::Leaf)
+    }
+    fn visit_i64<E>(self, _: i64) -> Result<KTree<Q>, E> {
+        Ok(KTree::Leaf)
+    }
+    fn visit_f64<E>(self, _: f64) -> Result<KTree<Q>, E> {
+        Ok(KTree::Leaf)
+    }
+    fn visit_str<E>(self, _: &str) -> Result<KTree<Q>, E> {
+        Ok(KTree::Leaf)
+    }
+    fn visit_seq<A: SeqAccess<'de>>(self, mut a: A) -> Result<KTree<Q>, A::Error> {
+        let mut v = vec![];
+        while let Some(x) = a.next_element_seed(KTreeSeed::<Q>(Default::default()))? {
+            v.push(x);
+        }
+        Ok(KTree::Seq(v))
+    }
+    fn visit_map<A: MapAccess<'de>>(self, mut a: A) -> Result<KTree<Q>, A::Error> {
+        let mut v = vec![];
+        if !self.root {
+            // the first key of an inner map may be the private date-time key (a plain string): read it with `K`
+            match a.next_key::<K>()? {
+                None => return Ok(KTree::Map(v)),
+                Some(K::Plain(_)) => {
+                    let _: serde::de::IgnoredAny = a.next_value()?;
+                    while a.next_key::<serde::de::IgnoredAny>()?.is_some() {
+                        let _: serde::de::IgnoredAny = a.next_value()?;
+                    }
+                    return Ok(KTree::Leaf);
+                }
+                Some(K::Spanned(_)) => {
+                    let _ = a.next_value_seed(KTreeSeed::<Q>(Default::default()))?;
+                }
+            }
+        }
+        while let Some(k) = a.next_key::<Q>()? {
+            let x = a.next_value_seed(KTreeSeed::<Q>(Default::default()))?;
+            v.push((k, x));
+        }
+        Ok(KTree::Map(v))
+    }
+}
+fn ktree_list<Q: KeyKind>(t: &KTree<Q>, path: &str, out: &mut Vec<String>) {
+    match t {
+        KTree::Leaf => {}
+        KTree::Seq(v) => {
+            for (i, x) in v.iter().enumerate() {
+                ktree_list(x, &format!("{path}/{i}"), out);
+            }
+        }
+        KTree::Map(v) => {
+            for (k, x) in v {
+                let (name, span) = k.parts();
+                let p = format!("{path}/{}", hex(name.as_bytes()));
+                out.push(match span {
+                    Some((a, b)) => format!("{p}={a}..{b}"),
+                    None => format!("{p}=-"),
+                });
+                ktree_list(x, &p, out);
+            }
+        }
+    }
+}
+fn key_kind<Q: KeyKind>(text: &str) -> Result<Vec<String>, String> {
+    use serde::de::DeserializeSeed;
+    struct RootSeed<Q>(std::marker::PhantomData<Q>);
+    impl<'de, Q: KeyKind> DeserializeSeed<'de> for RootSeed<Q> {
+        type Value = KTree<Q>;
+        fn deserialize<D: Deserializer<'de>>(self, d: D) -> Result<KTree<Q>, D::Error> {
+            d.deserialize_any(KTreeVisitor::<Q> { root: true, m: Default::default() })
+        }
+    }
+    let de = toml::de::Deserializer::new(text);
+    let t = RootSeed::<Q>(Default::default()).deserialize(de).map_err(|e| e.message().to_string())?;
+    let mut out = vec![];
+    ktree_list(&t, "", &mut out);
+    Ok(out)
+}
+/// `keys=same` or what differs between the four key kinds (and the document's own key spans `ed`)
+fn key_kinds(text: &str, ed: &std::collections::HashMap<&str, &str>) -> String {
+    let p = key_kind::<KP>(text);
+    let sp_ = key_kind::<Spanned<KP>>(text);
+    let ps = key_kind::<KPS>(text);
+    let s = key_kind::<Spanned<String>>(text);
+    let names = |r: &Result<Vec<String>, String>| r.as_ref().map(|v| v.iter().map(|e| e.split('=').next().unwrap().to_string()).collect::<Vec<_>>()).map_err(|e| e.clone());
+    let mut bad = vec![];
+    for (n, r) in [("Spanned<Newtype(String)>", &sp_), ("Newtype(Spanned<String>)", &ps), ("Spanned<String>", &s)] {
+        match (&p, r) {
+            (Ok(_), Err(e)) => bad.push(format!("{n}-fails-where-Newtype(String)-succeeds:{}", hex(e.as_bytes()))),
+            (Err(e), Ok(_)) => bad.push(format!("{n}-succeeds-where-Newtype(String)-fails:{}", hex(e.as_bytes()))),
+            (Ok(_), Ok(v)) => {
+                if names(&p) != names(r) {
+                    bad.push(format!("{n}-gives-other-keys"));
+                }
+                if let Ok(sv) = &s {
+                    if sv != v {
+                        bad.push(format!("{n}-gives-other-spans-than-Spanned<String>"));
+                    }
+                }
+                for e in v {
+                    let (path, span) = e.split_once('=').unwrap();
+                    if let Some(x) = ed.get(path) {
+                        let ek = x.split(':').next().unwrap();
+                        if ek != "-" && ek != span {
+                            bad.push(format!("{n}:{path}:{span}!=document-key-span-{ek}"));
+                        }
+                    }
+                }
+            }
+            (Err(_), Err(_)) => {}
+        }
+    }
+    if bad.is_empty() {
+        "same".into()
+    } else {
+        bad.truncate(4);
+        format!("DIFF:{}", bad.join(","))
+    }
+}
+
 /// serde route: a recursive Spanned tree
 #[derive(Debug)]
 struct Node(Spanned<Inner>);
@@ -356,7 +529,11 @@ pub fn run_spans(line: &str) -> String {
             format!("value={} spans={}", if plain_ok { "same" } else { "DIFF" }, if diff.is_empty() { "same".to_string() } else { diff.join(",") })
         }
     };
+    let keys = {
+        let ed: std::collections::HashMap<&str, &str> = out.iter().filter_map(|e| e.split_once('=')).collect();
+        key_kinds(&text, &ed)
+    };
     let m = im.into_mut();
     let despan = if any_span_tbl(m.as_table()) { "STALE" } else { "none" };
-    format!("ok spans={} oracle={} serde[{}] despan={}", out.join(","), if bad.is_empty() { "ok".to_string() } else { format!("BAD:{}", bad.join(",")) }, serde, despan)
+    format!("ok spans={} oracle={} serde[{}] keys={} despan={}", out.join(","), if bad.is_empty() { "ok".to_string() } else { format!("BAD:{}", bad.join(",")) }, serde, keys, despan)
 }
